@@ -31,7 +31,7 @@ RULE = (
     "start(), in order, as the same objects, nothing else escapes; (3) the invocation log [node, clock(, periodic state)] "
     "equals the model's - in particular no periodic tick after a raise, whatever the verdict; (4) differential: the same "
     "forest with all raises removed gives the same log on CatchScheduler as on the bare TestScheduler and never calls the "
-    "handler; actions may RETURN a disposable standing for the work they scheduled - the child's handle itself, or a SingleAssignment/MultipleAssignment/Serial/Composite/plain Disposable around it - and 'dispose' ops dispose the handle of any scheduled node before, while or after it ran: as on the bare scheduler, the item's handle owns what the action returned, so disposing the parent's handle cancels not-yet-run nested work (modelled; also covered by the differential run); (5) the wrapped scheduler runs exactly one item per modelled invocation (a counting subclass of the inner scheduler): a stopped periodic action leaves no live timer behind. Periodic nodes live up to 12 ticks and may schedule children from inside a tick (through the scheduler captured at creation or the outer one; immediately or after less than one period). Non-trivial: a raise actually executed at depth >= 1 (inside an action scheduled from an action) or inside "
+    "handler; actions may RETURN a disposable standing for the work they scheduled - the child's handle itself, or a SingleAssignment/MultipleAssignment/Serial/Composite/plain Disposable around it - and 'dispose' ops dispose the handle of any scheduled node before, while or after it ran: as on the bare scheduler, the item's handle owns what the action returned, so disposing the parent's handle cancels not-yet-run nested work (modelled; also covered by the differential run); relative delays may be strictly negative (due in the past: such an item runs before the items due now, on the outer and on the handed scheduler alike); (5) the wrapped scheduler runs exactly one item per modelled invocation (a counting subclass of the inner scheduler): a stopped periodic action leaves no live timer behind. Periodic nodes live up to 12 ticks and may schedule children from inside a tick (through the scheduler captured at creation or the outer one; immediately or after less than one period). Non-trivial: a raise actually executed at depth >= 1 (inside an action scheduled from an action) or inside "
     "a periodic action. Part of the forests are built with >= 2 periodic actions alive together on one CatchScheduler (roots, or siblings created through one handed scheduler) so that one raises while another still ticks - the survivor must tick on exactly as modelled. Every run is fused: a harness action at a statically computed horizon stops the inner scheduler, so never-ending periodic work gives a verdict, not a hang. Distinct = distinct case JSON."
 )
 ASSUMPTIONS = [
@@ -224,7 +224,7 @@ def _horizon(nodes):
         elif n["how"] == "abs":
             latest = max(latest, n["t"])
         else:
-            total += n["t"]
+            total += max(n["t"], 0)
     return total + latest + 5
 
 
@@ -279,6 +279,14 @@ def _model(nodes, verdicts, K="test"):
     def schedule(node):
         how, t = node["how"], node["t"]
         order.append(node["id"])
+        if how == "rel" and t < 0:
+            info["neg_rel"] = info.get("neg_rel", 0) + 1
+            if node["depth"] >= 1:
+                info["neg_rel_handed"] = 1
+            if any(m.clock + t <= en.due <= m.clock for en in m.pending()):
+                info["neg_rel_overtakes"] = 1  # something already queued is due later than this past-due item
+            if any(op[0] == "raise" for op in node["ops"]):
+                info["neg_rel_raises"] = 1
         if how == "per":
             live.add(node["id"])
             entry_of[node["id"]] = m.schedule_relative(t, ("tick", node, 1, 10 * node["id"]))
@@ -376,6 +384,14 @@ def _run(case):
         cls.append("periodic-action-schedules-children")
     for k in sorted(info.get("ret_kinds", ())):
         cls.append("returns:" + k)
+    if info.get("neg_rel"):
+        cls.append("negative-relative-delay")
+    if info.get("neg_rel_handed"):
+        cls.append("negative-relative-delay-via-handed-scheduler")
+    if info.get("neg_rel_overtakes"):
+        cls.append("negative-relative-delay-overtakes-queued-item")
+    if info.get("neg_rel_raises"):
+        cls.append("negative-relative-delay-node-raises")
     if info.get("dispose_ops"):
         cls.append("dispose-op-executed")
     if info.get("effective_dispose"):
@@ -444,7 +460,9 @@ def _run(case):
 
 
 # ----------------------------------------------------------------------------------------------------- strategy
-_T = st.one_of(st.sampled_from([0, 1, 1, 2, 3]), st.integers(0, 8))
+# relative delays, incl. strictly negative ones: on a virtual-time scheduler such an item is due in the past, i.e. it runs
+# (at the current clock) BEFORE the items that are due now - through CatchScheduler exactly as on the bare scheduler
+_T = st.one_of(st.sampled_from([0, 1, 1, 2, 3]), st.integers(0, 8), st.sampled_from([-1, -1, -2, -3]))
 
 
 _EXC = st.sampled_from(EXC_TYPES + ("type", "type"))  # type of the exception the node raises (if it raises)
